@@ -785,7 +785,8 @@ func (st *state) applyDefaults(instancep reflect.Value, schema *Schema) (err err
 }
 
 // schemaHasDefaultsInProperties reports whether s or any descendant schema under
-// its Properties contains a default. Only walks Properties to match ApplyDefaults semantics.
+// its non-required Properties contains a default. Only walks Properties, and skips
+// required ones, to match ApplyDefaults semantics.
 func schemaHasDefaultsInProperties(s *Schema) bool {
 	if s == nil {
 		return false
@@ -794,7 +795,11 @@ func schemaHasDefaultsInProperties(s *Schema) bool {
 		return true
 	}
 	if s.Properties != nil {
-		for _, ss := range s.Properties {
+		for prop, ss := range s.Properties {
+			// ApplyDefaults ignores defaults on required properties.
+			if slices.Contains(s.Required, prop) {
+				continue
+			}
 			if schemaHasDefaultsInProperties(ss) {
 				return true
 			}
